@@ -284,7 +284,7 @@ func (in *Interp) runAll(main *Goroutine) {
 						if f := g.top(); f != nil {
 							where = f.fn.String() + " " + in.posOf2(f)
 						}
-						msg += fmt.Sprintf(" [g%d %s at %s]", g.id, g.waitMsg, where)
+						msg += fmt.Sprintf(" [%s at %s]", g.waitMsg, where)
 					}
 				}
 				in.cur = main
